@@ -1,0 +1,18 @@
+// Unless explicitly stated otherwise all files in this repository are licensed
+// under the Apache License Version 2.0.
+// This product includes software developed at Datadog (https://www.datadoghq.com/).
+// Copyright 2016-2019 Datadog, Inc.
+
+//go:build verif
+
+package extendeddaemonsetreplicaset
+
+import (
+	"k8s.io/utils/clock"
+)
+
+// VerifSetBackOffClock puts the in-memory failed-pod back-off on the clock of the conformance harness
+// (virtual time). Compiled only with the `verif` build tag.
+func (r *Reconciler) VerifSetBackOffClock(c clock.Clock) {
+	r.failedPodsBackOff.Clock = c
+}
